@@ -26,6 +26,8 @@ THEOREMS = [
     "ProbLogProofs.C09.C09_clark_constraints",
     "ProbLogProofs.C09.C09_clark_constraints_exactly_one",
     "ProbLogProofs.C09.C09_clark_constraints_all",
+    "ProbLogProofs.C09.C09_clark_models",
+    "ProbLogProofs.C09.C09_clark_node_iff_needs_no_true_child",
     "ProbLogProofs.C09.C09_clark_carry",
 ]
 
